@@ -427,7 +427,9 @@ int cmd_run_at(const std::string &engine, const std::string &property, uint64_t 
 	Job job{engine, property, 0, 0};
 	uint64_t base = 1;
 	if (const char *s = getenv("VERIF_SEED")) base = strtoull(s, nullptr, 0);
-	Plan p = e->generate_at(index, run_seed(base, job, index), property, 0);
+	int tier = 0;
+	if (const char *t = getenv("VERIF_TIER")) tier = !strcmp(t, "thorough") ? 1 : 0;
+	Plan p = e->generate_at(index, run_seed(base, job, index), property, tier);
 	printf("PLAN %s\n", p.brief(200).c_str());
 	RunResult rr = e->execute(p, true);
 	for (auto &l : rr.log) printf("%s\n", l.c_str());
